@@ -82,8 +82,13 @@ func init() {
 	}
 	checks["C18"] = &propCheck{
 		ID: "C18",
-		Quick: append(each(P("CAP", 3, "AUTO", 0, "TOPICS", 1), "vhC08Put"), append(each(P("AUTO", 0, "SIZES", 3, "TOPICS", 1), "vhC09GC", "vhC09Put"), each(P("CAP", 2, "AUTO", 1, "TOPICS", 1), "vhC08Put")...)...),
-		Thorough: append(each(P("CAP", 5, "AUTO", 0, "TOPICS", 1), "vhC08Put"), append(each(P("AUTO", 0, "SIZES", 4, "TOPICS", 1), "vhC09GC", "vhC09Put"), each(P("AUTO", 1, "SIZES", 4, "TOPICS", 1), "vhC09GC", "vhC09Put")...)...),
+		Quick: append(append(each(P("CAP", 3, "AUTO", 0, "TOPICS", 1), "vhC08Put"), append(each(P("AUTO", 0, "SIZES", 3, "TOPICS", 1), "vhC09GC", "vhC09Put"), each(P("CAP", 2, "AUTO", 1, "TOPICS", 1), "vhC08Put")...)...),
+			// a Replay to a failing client first: it must leave nothing behind that keeps evicted/collected messages alive
+			hrun{Harness: "vhC08Put", Params: P("CAP", 3, "AUTO", 1, "TOPICS", 1, "PREREPLAY", 1, "FIRSTS", 3)},
+			hrun{Harness: "vhC09GC", Params: P("AUTO", 0, "SIZES", 2, "TOPICS", 1, "PREREPLAY", 1, "MAXCOUNT", 2)}),
+		Thorough: append(append(each(P("CAP", 5, "AUTO", 0, "TOPICS", 1), "vhC08Put"), append(each(P("AUTO", 0, "SIZES", 4, "TOPICS", 1), "vhC09GC", "vhC09Put"), each(P("AUTO", 1, "SIZES", 4, "TOPICS", 1), "vhC09GC", "vhC09Put")...)...),
+			hrun{Harness: "vhC09GC", Params: P("AUTO", 0, "SIZES", 2, "TOPICS", 1, "PREREPLAY", 1)},
+			hrun{Harness: "vhC09Put", Params: P("AUTO", 1, "SIZES", 2, "TOPICS", 1, "PREREPLAY", 1)}),
 		Labels: []string{"C18/", "inv-dead-slots-are-zero", "holds-exactly-last-N", "drops-exactly-the-expired-prefix", "inv-", "gc-interval-not-restarted", "collection-time-recorded", "appends-and-drops-no-unexpired"},
 		Bounds: map[string]string{
 			"quick":    "FiniteReplayer capacity 2-3, ValidReplayer buffer length in {0,4,8}: one Put/GC from every ring state; reachability decided on the executor's explicit heap (slices keep their whole backing array alive)",
@@ -94,7 +99,10 @@ func init() {
 	}
 	checks["C19"] = &propCheck{
 		ID: "C19",
-		Quick: append([]hrun{{Harness: "vhC19Clone", Params: P("K", 3, "S", 1), Covers: []string{"C19/Clone/cloned"}}}, append(each(P("CAP", 2, "AUTO", 1, "TOPICS", 1, "FIRSTS", 12), "vhC08Put"), each(P("AUTO", 1, "SIZES", 2, "TOPICS", 1, "FIRSTS", 4), "vhC09Put")...)...),
+		Quick: append([]hrun{{Harness: "vhC19Clone", Params: P("K", 3, "S", 1), Covers: []string{"C19/Clone/cloned"}},
+			// caller-provided IDs (any single-line string, NUL included): the stored message is the caller's, untouched
+			{Harness: "vhC08Put", Params: P("CAP", 2, "AUTO", 0, "TOPICS", 1)}, {Harness: "vhC09Put", Params: P("AUTO", 0, "SIZES", 2, "TOPICS", 1, "MAXCOUNT", 2)}},
+			append(each(P("CAP", 2, "AUTO", 1, "TOPICS", 1, "FIRSTS", 12), "vhC08Put"), each(P("AUTO", 1, "SIZES", 2, "TOPICS", 1, "FIRSTS", 4), "vhC09Put")...)...),
 		Thorough: append([]hrun{{Harness: "vhC19Clone", Params: P("K", 3, "S", 2), Covers: []string{"C19/Clone/cloned"}}, {Harness: "vhC19Clone", Params: P("K", 4, "S", 1), Covers: []string{"C19/Clone/cloned"}}}, append(each(P("CAP", 3, "AUTO", 1, "TOPICS", 1), "vhC08Put"), append(each(P("AUTO", 1, "SIZES", 3, "TOPICS", 1), "vhC09Put"), each(P("CAP", 3, "AUTO", 0, "TOPICS", 1), "vhC08Put")...)...)...),
 		Labels: []string{"C19/", "caller-message-unchanged", "auto-id-set-on-a-copy", "copy-carries-same-content", "auto-id-next-decimal-on-copy", "auto-id-is-next-decimal"},
 		Bounds: map[string]string{
@@ -114,6 +122,8 @@ func init() {
 			{Harness: "vhC15Writer", Params: P("CALLS", 1, "N", 1, "RETRY", 2), Covers: []string{"C15/writer-failed"}},
 			{Harness: "vhC15Retry", Params: P("RHIMS", 1000), Solver: "cvc5-int", Covers: []string{"C15/retry/written"}},
 			{Harness: "vhC15Long", Params: P("LONGMAX", 300)},
+			// a writer that encodes another message inside one of its Write calls: the encoders share no state
+			{Harness: "vhC15Reentrant", Covers: []string{"C15/nested/ran"}},
 		},
 		Thorough: []hrun{
 			{Harness: "vhC15Long", Params: P("LONGMAX", 5000)},
@@ -140,6 +150,8 @@ func init() {
 			{Harness: "vhC15Retry", Params: P("RHIMS", 1000), Solver: "cvc5-int"},
 			{Harness: "vhC15Long", Params: P("LONGMAX", 300)},
 			{Harness: "vhC01SmallBufRead", Params: P("L", 16)},
+			// messages built by cloning and appending: a clone's lines must not leak into its siblings
+			{Harness: "vhC19Clone", Params: P("K", 3, "S", 1), Covers: []string{"C19/Clone/cloned"}},
 		},
 		Thorough: []hrun{
 			{Harness: "vhC15Long", Params: P("LONGMAX", 5000)},
@@ -148,7 +160,7 @@ func init() {
 			{Harness: "vhC02", Params: P("CALLS", 1, "N", 1, "MSGS", 2, "RETRY", 2), Covers: []string{"C02/some-data-event"}},
 			{Harness: "vhC15Retry", Params: P("RFULL", 1), Solver: "cvc5-int"},
 		},
-		Labels: []string{"C02/", "C15/retry/", "C15/long/", "C01/SmallBuf"},
+		Labels: []string{"C02/", "C15/retry/", "C15/long/", "C01/SmallBuf", "C19/Clone"},
 		Bounds: map[string]string{
 			"quick":    "1 message with <=2 Append calls of strings <=1 byte or 1 call <=2 bytes, optional ID/type of the same bound, Retry boundary values; 2 concatenated messages with 1 call, strings <=1 byte; all 256 values per byte (CR, LF, colon, space, NUL, BOM bytes included)",
 			"thorough": "1 message: 2 calls <=2 bytes, 1 call <=3 bytes; 2 messages with Retry boundary values; retry field for every int64 duration",
@@ -203,6 +215,8 @@ func init() {
 		r = append(r, hrun{Harness: "vhC01SmallBufRead", Params: P("L", 16)}, hrun{Harness: "vhC01SmallBufConn", Params: P("L", 16)})
 		// a whole connection attempt reads no more than the limit from the body
 		r = append(r, hrun{Harness: "vhC20Connect", Params: P("L", 4)}, hrun{Harness: "vhC20Connect", Params: P("L", 16)})
+		// "unlimited" configurations: no call panics, nothing is allocated up front
+		r = append(r, hrun{Harness: "vhC20Huge", Covers: []string{"C20/Huge/ran"}})
 		return r
 	}
 	checks["C20"] = &propCheck{
@@ -287,13 +301,18 @@ func init() {
 			{Harness: "vhC10Connect", Params: P("A", 3, "CANCEL", 0, "BODYKINDS", 5, "TPLMASK", 1), Covers: []string{"C10/Connect/getbody-failed"}},
 			{Harness: "vhC10Connect", Params: P("A", 3, "CANCEL", 0, "BODYKINDS", 5, "TPLMASK", 2, "MRCHOICES", 3), Covers: []string{"C10/Connect/header-sent"}},
 			{Harness: "vhC10Connect", Params: P("A", 2, "CANCEL", 0, "BODYKINDS", 1, "TPLMASK", 64), Covers: []string{"C10/Connect/header-sent"}},
+			// Connect called again on the same Connection: its first attempt is a reconnection too
+			{Harness: "vhC10Reconnect", Params: P("A", 2, "CANCEL", 0, "BODYKINDS", 5, "TPLMASK", 3), Covers: []string{"C10/Connect/header-sent", "C10/Connect/getbody-failed"}},
+			// the stored ID must survive the scanner compacting its buffer (16-byte buffer on short streams)
+			{Harness: "vhC01SmallBufConn", Params: P("L", 16)},
 		},
 		Thorough: []hrun{
 			{Harness: "vhC10Connect", Params: P("A", 4, "CANCEL", 0, "BODYKINDS", 1, "TPLMASK", 39), Covers: []string{"C10/Connect/header-sent"}},
 			{Harness: "vhC10Connect", Params: P("A", 3, "CANCEL", 1, "BODYKINDS", 1, "TPLMASK", 7), Covers: []string{"C10/Connect/header-sent"}, NoNative: true},
 			{Harness: "vhC10Connect", Params: P("A", 4, "CANCEL", 0, "BODYKINDS", 5, "TPLMASK", 3), Covers: []string{"C10/Connect/getbody-failed"}},
+			{Harness: "vhC10Reconnect", Params: P("A", 3, "CANCEL", 0, "BODYKINDS", 5, "TPLMASK", 39), Covers: []string{"C10/Connect/header-sent", "C10/Connect/getbody-failed"}},
 		},
-		Labels: []string{"C10/", "panic:"},
+		Labels: []string{"C10/", "C01/SmallBufConn", "C11/Connect/never-returns-nil", "panic:"},
 		Bounds: map[string]string{
 			"quick":    "the real Connect loop against a scripted transport: scripts of <=3 attempts, each a transport failure, a rejected response, or a 200 response streaming one of 4 templates (data only; id:<symbolic byte>; id:<symbolic byte> cut before its blank line; id:7 then an empty id) ending cleanly or with a read error; MaxRetries in {-1,1,2}; request-body kinds {none, NoBody, with GetBody, without GetBody, GetBody failing at its 1st or 2nd call}",
 			"thorough": "scripts of <=4 attempts; cancellation at every point added for <=3 attempts",
@@ -308,6 +327,8 @@ func init() {
 			{Harness: "vhC12Logic", Params: P("K", 3), Covers: []string{"C12/Logic/limit-hit", "C12/Logic/elapsed-refusal", "C12/Logic/retry-granted"}, NoNative: true},
 			{Harness: "vhC12Connect", Params: P("A", 2, "CANCEL", 0, "BODYKINDS", 1, "TPLMASK", 17, "RDIGITS", 2), Covers: []string{"C12/Connect/server-retry-used"}},
 			{Harness: "vhC12Connect", Params: P("A", 3, "CANCEL", 0, "BODYKINDS", 1, "TPLMASK", 9), Covers: []string{"C11/Connect/retries-exhausted"}},
+			// a retry field in a block the connection is cut in
+			{Harness: "vhC12Connect", Params: P("A", 2, "CANCEL", 0, "BODYKINDS", 1, "TPLMASK", 128, "RDIGITS", 1), Covers: []string{"C12/Connect/server-retry-used"}},
 		},
 		Thorough: []hrun{
 			{Harness: "vhC12Merge", Covers: []string{"C12/Merge/jitter-minus-one"}},
@@ -315,6 +336,7 @@ func init() {
 			{Harness: "vhC12Logic", Params: P("K", 2, "JITTER", 1), Solver: "z3-new", Covers: []string{"C12/Logic/retry-granted"}, NoNative: true},
 			{Harness: "vhC12Connect", Params: P("A", 3, "CANCEL", 0, "BODYKINDS", 1, "TPLMASK", 17, "RDIGITS", 2), Covers: []string{"C12/Connect/server-retry-used"}},
 			{Harness: "vhC12Connect", Params: P("A", 4, "CANCEL", 0, "BODYKINDS", 1, "TPLMASK", 9), Covers: []string{"C11/Connect/retries-exhausted"}},
+			{Harness: "vhC12Connect", Params: P("A", 2, "CANCEL", 0, "BODYKINDS", 1, "TPLMASK", 129, "RDIGITS", 2), Covers: []string{"C12/Connect/server-retry-used"}},
 		},
 		Labels: []string{"C12/", "panic:"},
 		Bounds: map[string]string{
@@ -342,7 +364,11 @@ func init() {
 			joe("vhC06Joe", "NSUB", 2, "NMSG", 1, "NSHUT", 0, "CANCEL", 1, "CANCELN", 1, "TOPICS", 0),
 			// "Subscribe returns the subscriber's own ... replay error": what the real replayers return
 			{Harness: "vhC08Replay", Params: P("CAP", 2, "AUTO", 0, "TOPICS", 1)},
+			// capacity 3: the replayed range can be split by the ring's wrap, with the failing Send in its first part
+			{Harness: "vhC08Replay", Params: P("CAP", 3, "AUTO", 0, "TOPICS", 1)},
 			{Harness: "vhC09Replay", Params: P("AUTO", 1, "SIZES", 2, "TOPICS", 1, "MAXCOUNT", 2)},
+			// a Send error that wraps context.Canceled while the subscription's own context is live
+			joe("vhC06Joe", "NSUB", 1, "NMSG", 2, "NSHUT", 0, "CANCEL", 0, "TOPICS", 0, "ERRKIND", 1),
 		},
 		Thorough: []hrun{
 			joe("vhC06Joe", "NSUB", 2, "NMSG", 1, "NSHUT", 0, "CANCEL", 1, "TOPICS", 0),
@@ -370,6 +396,11 @@ func init() {
 			joe("vhC07Joe", "NSUB", 2, "NMSG", 0, "NSHUT", 0, "CANCEL", 1, "TOPICS", 0),
 			joe("vhC07Joe", "NSUB", 1, "NMSG", 3, "NSHUT", 1, "CANCEL", 0, "TOPICS", 0, "FAULTS", 1),
 			joe("vhC07Joe", "NSUB", 2, "NMSG", 1, "NSHUT", 1, "CANCEL", 1, "CANCELN", 1, "TOPICS", 0, "EMPTYTOPICS", 1),
+			// the subscriber is cancelled while Joe is inside its failing Send
+			joe("vhC07Joe", "NSUB", 1, "NMSG", 1, "NSHUT", 1, "CANCEL", 1, "TOPICS", 0, "FAULTS", 1),
+			// a pipelined consumer: its Send returns once the publisher got its pending Publish back,
+			// which Shutdown promises
+			joe("vhC07Joe", "NSUB", 1, "NMSG", 2, "NSHUT", 1, "CANCEL", 0, "TOPICS", 0, "GATE", 1),
 		},
 		Thorough: []hrun{
 			joe("vhC07Joe", "NSUB", 2, "NMSG", 1, "NSHUT", 2, "CANCEL", 0, "TOPICS", 0),
@@ -394,6 +425,9 @@ func init() {
 			joe("vhC03Joe", "NSUB", 2, "NMSG", 1, "NSHUT", 0, "CANCEL", 1, "CANCELN", 1, "TOPICS", 0),
 			joe("vhC03Joe", "NSUB", 1, "NMSG", 1, "NSHUT", 0, "CANCEL", 0, "TOPICS", 1, "NTOPICS", 2),
 			joe("vhC03Joe", "NSUB", 2, "NMSG", 2, "NSHUT", 0, "CANCEL", 0, "TOPICS", 0, "FAULTS", 1),
+			// one *Message object published twice (a reused keep-alive message): two publications
+			joe("vhC03Joe", "NSUB", 2, "NMSG", 2, "NSHUT", 0, "CANCEL", 0, "TOPICS", 0, "SAMEMSG", 1),
+			joe("vhC03Joe", "NSUB", 1, "NMSG", 3, "NSHUT", 0, "CANCEL", 0, "TOPICS", 1, "SAMEMSG", 1),
 		},
 		Thorough: []hrun{
 			joe("vhC03Joe", "NSUB", 2, "NMSG", 2, "NSHUT", 0, "CANCEL", 0, "TOPICS", 0, "FAULTS", 1),
@@ -421,6 +455,8 @@ func init() {
 			joe("vhC17Joe", "NSUB", 1, "NMSG", 2, "NSHUT", 0, "CANCEL", 0, "TOPICS", 0, "REPLAYER", 2),
 			joe("vhC17Joe", "NSUB", 2, "NMSG", 2, "NSHUT", 0, "CANCEL", 0, "TOPICS", 1, "REPLAYER", 1),
 			joe("vhC17Joe", "NSUB", 2, "NMSG", 1, "NSHUT", 0, "CANCEL", 1, "CANCELN", 1, "TOPICS", 0, "REPLAYER", 1),
+			// Send/Flush errors that wrap context.Canceled (the subscription's own context is live)
+			joe("vhC17Joe", "NSUB", 2, "NMSG", 2, "NSHUT", 0, "CANCEL", 0, "TOPICS", 0, "REPLAYER", 1, "ERRKIND", 1),
 		},
 		Thorough: []hrun{
 			joe("vhC17Joe", "NSUB", 3, "NMSG", 1, "NSHUT", 0, "CANCEL", 0, "TOPICS", 1, "REPLAYER", 1),
@@ -473,6 +509,10 @@ func init() {
 			{Harness: "vhC05", Params: P("MSGS", 2, "ATTEMPTS", 2, "AUTO", 0, "N", 1), Covers: []string{"C05/all-received", "C05/cut-mid-stream"}},
 			{Harness: "vhC05", Params: P("MSGS", 2, "ATTEMPTS", 2, "AUTO", 0, "N", 1, "VALID", 1), Covers: []string{"C05/all-received", "C05/cut-mid-stream"}},
 			{Harness: "vhC05", Params: P("MSGS", 2, "ATTEMPTS", 2, "AUTO", 1, "N", 0, "SMALLBUF", 24), Covers: []string{"C05/all-received", "C05/cut-mid-stream"}},
+			// each response body handed over in two reads split at every offset (besides the cut)
+			{Harness: "vhC05", Params: P("MSGS", 2, "ATTEMPTS", 2, "AUTO", 1, "N", 0, "SPLIT", 1, "NOTYPE", 1), Covers: []string{"C05/all-received", "C05/cut-mid-stream"}},
+			// "a replayer large enough": the ValidReplayer's ring must keep Put order through grow/GC (one inductive step)
+			{Harness: "vhC09Put", Params: P("AUTO", 0, "SIZES", 2, "TOPICS", 1)},
 			// "the server process survives every such cut": Joe under cancellation while publishing
 			joe("vhC06Joe", "NSUB", 1, "NMSG", 2, "NSHUT", 0, "CANCEL", 1, "TOPICS", 0),
 			// a cut session that the server has not noticed yet (its next write fails) next to a fresh one
@@ -483,8 +523,9 @@ func init() {
 			{Harness: "vhC05", Params: P("MSGS", 3, "ATTEMPTS", 2, "AUTO", 1, "N", 1), Covers: []string{"C05/all-received"}},
 			{Harness: "vhC05", Params: P("MSGS", 2, "ATTEMPTS", 3, "AUTO", 1, "N", 0), Covers: []string{"C05/all-received"}},
 			{Harness: "vhC05", Params: P("MSGS", 2, "ATTEMPTS", 2, "AUTO", 1, "N", 1, "VALID", 1), Covers: []string{"C05/all-received"}},
+			{Harness: "vhC05", Params: P("MSGS", 2, "ATTEMPTS", 2, "AUTO", 1, "N", 0, "SPLIT", 1), Covers: []string{"C05/all-received"}},
 		},
-		Labels: []string{"C05/", "C06/", "C17/", "panic:"},
+		Labels: []string{"C05/", "C06/", "C17/", "C09/", "panic:"},
 		Bounds: map[string]string{
 			"quick":    "2 messages (symbolic data <=1 byte incl. line breaks, optional symbolic type <=1 byte), every placement of their publication on the timeline {client away, while attempt 1 is connected, away, while attempt 2 is connected}, 2 connection attempts, the first cut at EVERY byte offset of the response body abruptly (read error) or, at message boundaries, by the handler returning; FiniteReplayer with automatic and manual IDs and ValidReplayer with manual IDs, capacity >= number of messages",
 			"thorough": "data <=2 bytes; 3 messages; 3 attempts (2 cuts)",
